@@ -45,6 +45,7 @@ struct Exp2 {
         bool ok = guard(o, [&] { got = rep_mpz(cnl::exp2(make_rep<T>(to_mpz(r)))); });
         if (!ok) return;
         mpz_class diff = abs(got - t);
+        if (!(integral && q_is_int(scaled)) && (bits_v<Rep> <= 16 || !is_signed_int_v<Rep>)) o.region = "exp2/polynomial-precision";
         if (integral && q_is_int(scaled)) {
             if (got != t) return o.fail("exp2/integral-x-not-exact", "expected rep " + zstr(t) + " got " + zstr(got));
         } else if (diff > 1) {
